@@ -122,7 +122,8 @@ def _tx_extra(t):
 
 def _block_extra(b):
     return (f" ssize={b.stripped_size} weight={b.weight} "
-            f"stripped={hx(h256(b.serialize(include_witness=False, check_validity=False)))}")
+            f"stripped={hx(h256(b.serialize(include_witness=False, check_validity=False)))} "
+            f"segwit={'true' if b.is_segwit else 'false'}")
 
 
 def _r_block(b):
@@ -380,12 +381,14 @@ def p_witness(rng, allow_empty=True):
     if rng.random() < 0.01:
         n = rng.choice([252, 253])
     p = Parts().add("count", vi(n))
+    # a stack of empty items only (`Witness([b""])`) is a non-empty stack: `is_segwit` is about the stack
+    hollow = n > 0 and rng.random() < 0.15
     for _ in range(n):
-        p.extend(p_varbytes(rng) if n < 50 else Parts().add("len", b"\x00"))
+        p.extend(p_varbytes(rng) if n < 50 and not hollow else Parts().add("len", b"\x00"))
     return p
 
 
-def p_tx(rng):
+def p_tx(rng, force=None):
     nin = rng.choice([1, 1, 1, 2, 3, 0])
     nout = rng.choice([1, 1, 2, 3, 0])
     r = rng.random()
@@ -393,7 +396,9 @@ def p_tx(rng):
         nin = rng.choice([252, 253])
     elif r < 0.03:
         nout = rng.choice([252, 253])
-    segwit = nin > 0 and rng.random() < 0.5
+    if force == "segwit":
+        nin = max(nin, 1)
+    segwit = nin > 0 and (rng.random() < 0.5 if force is None else force == "segwit")
     p = Parts().add("int", g_u32(rng).to_bytes(4, "little"))
     if segwit:
         p.add("marker", b"\x00\x01")
@@ -428,8 +433,17 @@ def p_header(rng):
 def p_block(rng):
     n = rng.choice([0, 1, 2, 3])
     p = p_header(rng).add("count", vi(n))
-    for _ in range(n):
-        p.extend(p_tx(rng))
+    shape = rng.choice(["any", "any", "first-only", "first-only", "later-only", "none"])
+    for k in range(n):
+        if shape == "any":
+            force = None
+        elif shape == "first-only":   # a witness in the coinbase position only
+            force = "segwit" if k == 0 else "plain"
+        elif shape == "later-only":
+            force = "plain" if k == 0 else "segwit"
+        else:
+            force = "plain"
+        p.extend(p_tx(rng, force))
     return p
 
 
